@@ -435,8 +435,9 @@ def main(tier, seed):
             raise ValueError(k)
         try:
             oreq = "unitorder " + " ; ".join(sexpr_o(smp[4]) for smp in sample)
-        except KeyError:
+        except KeyError as ex:
             oreq = None
+            order_stats["unit_order_skipped"] = f"origin of {ex} is not an integer count of a rational unit"
         if oreq:
             oans = drv.ask([oreq])[0]
             n_ = len(sample)
